@@ -32,11 +32,11 @@ FLOOR = {
     "twin": 1, "outcome:returned": 20, "outcome:refused": 1, "values_compared": 500,
 }
 
-KINDS = ["pair", "pair", "pair-onekind", "square", "chain3", "evidence", "unaligned", "incompatible", "pair-sparse", "pair-mixing", "twin"]
+KINDS = ["pair", "pair", "pair-onekind", "square", "chain3", "evidence", "unaligned", "incompatible", "pair-sparse", "pair-mixing", "twin", "pair-arities", "pair-arities"]
 
 
 def plan(tier, seed):
-    n = 11 if tier == "quick" else 120
+    n = 11 if tier == "quick" else 480
     return [{"kind": k, "k": i, "seed": seed} for i in range(n) for k in KINDS]
 
 
@@ -57,10 +57,14 @@ def build(case):
     over = {}
     if kind == "pair-sparse":
         over["id_mode"] = "sparse"
+    if kind == "pair-arities":
+        # many dense sum layers with arities 1-3 in both operands: the products' weights are index-over-
+        # Kronecker parameters of equal shapes but different column permutations
+        over.update(max_reps=3, max_units=2, nvars=rng.randint(2, 4), prod_kinds=("hadamard",), mixing_prob=0.0, outputs=1, share_prob=0.0, leaf_sum_prob=0.9, leaf_mix_prob=1.0)
     if kind == "pair-mixing":
         over.update(mixing_prob=0.9, max_reps=3, prod_kinds=("hadamard",))
     cfg1 = _cfg(rng, kinds, **over)
-    cfg2 = _cfg(rng, kinds, nvars=cfg1.nvars, **over)
+    cfg2 = _cfg(rng, kinds, **{**over, "nvars": cfg1.nvars})
     if kind == "square":
         c, meta = gen.gen_circuit(rng, cfg1)
         ops = [c, c]
